@@ -45,7 +45,13 @@ fn build(rng: &mut Rng, commit_at: Option<u64>) -> Option<(Run, Vec<String>, Vec
             let nt = rng.below(5) as usize;
             let topics: Vec<U256> = (0..nt).map(|_| U256::from(rng.range(1, 3))).collect();
             uid += 1;
-            run.step(&Op::Call { from_pkscript: PKSCRIPTS[rng.below(3) as usize].to_string(), to: To::ByAddress(Hx::from_hex(&c)), data: Hx(cd::log(&topics, U256::from(uid))), enc: Enc::Hex, tail: tail(ts, &format!("log{}", uid)) });
+            // one time in three the log is emitted by the OTHER contract, called from the transaction's target
+            // (the emitter of a log need not be the contract the transaction was sent to)
+            let (to, data) = if rng.chance(1, 3) && contracts.len() >= 2 {
+                let other = contracts.iter().find(|x| **x != c).cloned().unwrap_or(c.clone());
+                (c.clone(), cd::call(Hx::from_hex(&other).to_address(), &cd::log(&topics, U256::from(uid))))
+            } else { (c.clone(), cd::log(&topics, U256::from(uid))) };
+            run.step(&Op::Call { from_pkscript: PKSCRIPTS[rng.below(3) as usize].to_string(), to: To::ByAddress(Hx::from_hex(&to)), data: Hx(data), enc: Enc::Hex, tail: tail(ts, &format!("log{}", uid)) });
         }
         run.step(&Op::Finalise { ts, hash: Hx::zero32(), tx_count: Idx::Auto });
         if Some(b) == commit_at { run.step(&Op::Commit); }
